@@ -108,13 +108,17 @@ class Evaluator:
                 return vr.get("discr")
         return None
 
-    def _inline_target(self, cal):
+    def _inline_target(self, cal, args=None):
         if self.prog is None or self.inline is None:
             return None
         t = self.prog.fns.get(cal.get("resolved") or cal.get("path"))
-        if t is not None and self.inline(t):
-            return t
-        return None
+        if t is None:
+            return None
+        try:
+            ok = self.inline(t, args)
+        except TypeError:
+            ok = self.inline(t)
+        return t if ok else None
 
     def _call_closure(self, clos, args):
         if clos[0] != "closure" or self.prog is None or clos[1] not in self.prog.fns:
@@ -150,6 +154,9 @@ class Evaluator:
 
     def _run_from(self, bb, env, steps, fork, work):
         f = self.f
+        if bb == -1:     # a path that ended inside an inlined callee (stop hook)
+            self.path_logs.append((env["__ret"], env["__log"]))
+            return env["__ret"]
         while True:
             steps += 1
             if steps > self.max_steps:
@@ -268,14 +275,44 @@ class Evaluator:
                 elif name in ("is_gt", "is_lt", "is_eq", "is_ne", "is_ge", "is_le") and args and args[0][0] == "ordering":
                     r = args[0][1]
                     res = ("int", int({"is_gt": r > 0, "is_lt": r < 0, "is_eq": r == 0, "is_ne": r != 0, "is_ge": r >= 0, "is_le": r <= 0}[name]))
-                elif self._inline_target(cal) is not None and self.depth < 6:
-                    tgt = self._inline_target(cal)
+                elif self._inline_target(cal, args) is not None and self.depth < 6:
+                    tgt = self._inline_target(cal, args)
                     sub = Evaluator(tgt, self.classify, self.relation, self.opaque_switch, self.max_steps, self.call_hook, self.prog, self.inline, self.depth + 1)
                     sub.trace = self.trace
                     sub.proj_hook = self.proj_hook
-                    res = sub.run({i + 1: a for i, a in enumerate(args)})
-                    if res is None:
-                        res = ("opaque", "call:%s" % name)
+                    subenv = {i + 1: a for i, a in enumerate(args)}
+                    if fork:
+                        # the callee may branch on values this evaluation cannot decide: explore its paths, continue once per distinct outcome
+                        sub.log_pred = self.log_pred
+                        sub.stop_hook = self.stop_hook
+                        sub.run_all(subenv, fork=True, max_paths=256)
+                        outs = {}
+                        for r, lg in sub.path_logs:
+                            outs.setdefault((repr(r), lg), (r, lg))
+                        if not outs:
+                            raise Undecided("inlined callee %s has no finished path" % name)
+                        base = env.get("__log", ())
+                        if len(outs) == 1 and not (list(outs.values())[0][0] or ("",))[0] == "stopped":
+                            res, lg = list(outs.values())[0]
+                            env["__log"] = base + lg
+                            if res is None:
+                                res = ("opaque", "call:%s" % name)
+                        else:
+                            for r, lg in outs.values():
+                                if r and r[0] == "stopped":
+                                    work.append((-1, {"__ret": r, "__log": base + lg}, steps))
+                                    continue
+                                env2 = dict(env)
+                                env2["__log"] = base + lg
+                                if len(dst) == 1:
+                                    env2[dst[0]] = r if r is not None else ("opaque", "call:%s" % name)
+                                if "to" in t:
+                                    work.append((t["to"], env2, steps))
+                            return _FORKED
+                    else:
+                        res = sub.run(subenv)
+                        if res is None:
+                            res = ("opaque", "call:%s" % name)
                 elif name in TRANSPARENT and args:
                     res = args[0]
                 if len(dst) == 1:
